@@ -21,7 +21,11 @@ struct UnixFdInner {
 }
 impl Drop for UnixFdInner {
     fn drop(&mut self) {
+        #[cfg(feature = "verif_hooks")]
+        crate::verif_hooks::point(crate::verif_hooks::Point::FdInnerDrop);
         if let Some(fd) = self.take() {
+            #[cfg(feature = "verif_hooks")]
+            crate::verif_hooks::point(crate::verif_hooks::Point::FdClose(fd));
             nix::unistd::close(fd).ok();
         }
     }
@@ -35,11 +39,15 @@ impl UnixFdInner {
     /// This is kinda like Cell::take it takes the FD and resets the atomic int to FD_INVALID which represents the invalid / taken state here.
     fn take(&self) -> Option<RawFd> {
         // load fd and see if it is already been taken
+        #[cfg(feature = "verif_hooks")]
+        crate::verif_hooks::point(crate::verif_hooks::Point::FdLoad);
         let loaded_fd: RawFd = self.inner.load(std::sync::atomic::Ordering::SeqCst);
         if loaded_fd == Self::FD_INVALID {
             None
         } else {
             //try to swap with FD_INVALID
+            #[cfg(feature = "verif_hooks")]
+            crate::verif_hooks::point(crate::verif_hooks::Point::FdCompareExchange);
             let swapped_fd = self.inner.compare_exchange(
                 loaded_fd,
                 Self::FD_INVALID,
@@ -57,6 +65,8 @@ impl UnixFdInner {
 
     /// This is kinda like Cell::get it returns the FD, FD_INVALID represents the invalid / taken state here.
     fn get(&self) -> Option<RawFd> {
+        #[cfg(feature = "verif_hooks")]
+        crate::verif_hooks::point(crate::verif_hooks::Point::FdLoad);
         let loaded = self.inner.load(std::sync::atomic::Ordering::SeqCst);
         if loaded == Self::FD_INVALID {
             None
@@ -71,6 +81,8 @@ impl UnixFdInner {
             Some(fd) => fd,
             None => return Err(DupError::AlreadyTaken),
         };
+        #[cfg(feature = "verif_hooks")]
+        crate::verif_hooks::point(crate::verif_hooks::Point::FdDup(fd));
         match nix::unistd::dup(fd) {
             Ok(new_fd) => Ok(Self {
                 inner: AtomicI32::new(new_fd),
